@@ -223,6 +223,78 @@ class Outer:
   name: str = 'n'
 
 
+from fiddle.experimental import auto_config as _ac   # noqa: E402
+
+
+@_ac.auto_config(experimental_always_inline=False)
+def ac_object(x, y=2):
+  return pool.Cls(pool.fb(x, y), v=[pool.fb(y)])
+
+
+@_ac.auto_config(experimental_always_inline=False)
+def ac_partial(x):
+  import functools
+  return functools.partial(pool.fb, x)
+
+
+@_ac.auto_config(experimental_always_inline=False)
+def ac_nested(x):
+  return pool.fc(ac_object(x), q=[ac_object(x, 3)])
+
+
+@_ac.auto_config(experimental_always_inline=False)
+def ac_shared(x):
+  inner = pool.Cls(x)
+  return pool.fc(inner, q=[inner])
+
+
+def inline_case(_=None):
+  """auto_config.inline on a Config of an auto_config function (at the root, nested, inside
+  containers, with shared arguments, returning objects / partials / nested auto_config results):
+  either it refuses and leaves the configuration as it was, or what is built stays the same."""
+  viols = []
+  def bad(what, name):
+    viols.append(dict(config=name, transform='inline', what=what, sig=name, store='inline', op='', inline=True))
+  shared_arg = [1, 2]
+  cases = {
+      'object at the root': (lambda: fdl.Config(ac_object, 1), lambda r: r),
+      'object nested': (lambda: fdl.Config(pool.fc, fdl.Config(ac_object, 1, y=5), q=7), lambda r: r.p),
+      'object in containers': (lambda: fdl.Config(pool.fc, [fdl.Config(ac_object, 4)], q={'k': (fdl.Config(ac_object, 5),)}),
+                               lambda r: r.p[0]),
+      'partial at the root': (lambda: fdl.Config(ac_partial, 3), lambda r: r),
+      'partial nested': (lambda: fdl.Config(pool.fc, fdl.Config(ac_partial, 3)), lambda r: r.p),
+      'partial in a list': (lambda: fdl.Config(pool.fc, [fdl.Config(ac_partial, 4)]), lambda r: r.p[0]),
+      'nested auto_config calls': (lambda: fdl.Config(pool.fc, fdl.Config(ac_nested, 2)), lambda r: r.p),
+      'result with internal sharing': (lambda: fdl.Config(pool.fc, fdl.Config(ac_shared, 9)), lambda r: r.p),
+      'argument shared with another node': (lambda: fdl.Config(pool.fc, fdl.Config(ac_object, shared_arg), q=shared_arg),
+                                            lambda r: r.p),
+      'inlined node referenced twice': (lambda: (lambda n: fdl.Config(pool.fc, n, q=[n]))(fdl.Config(ac_object, 6)),
+                                        lambda r: r.p),
+  }
+  n = 0
+  for name, (mk, pick) in cases.items():
+    n += 1
+    root = mk()
+    b0 = built(mk(), behav=True)
+    try:
+      ser0 = serialization.dump_json(root)
+      serializable = True
+    except Exception:   # pylint: disable=broad-except
+      serializable = False
+    try:
+      _ac.inline(pick(root))
+      outcome = 'inlined'
+    except Exception as e:   # pylint: disable=broad-except
+      outcome = f'refused: {type(e).__name__}'
+    b1 = built(root, behav=True)
+    if b1 != b0:
+      bad(f'{name}: after auto_config.inline [{outcome}] the configuration builds something else: '
+          f'{str(b0)[:160]} -> {str(b1)[:160]}', name)
+    if outcome == 'inlined' and type(pick(root)) is not type(pick(mk())) and b1 == b0:
+      pass
+  return n, n, viols, [dict(scenario='auto_config.inline', cases=n)]
+
+
 def dataclass_case(_=None):
   viols = []
   for x in (Inner(), Outer(Inner(2, [1]), [Inner(3), Inner(4, [5])], 'nm'),
@@ -241,6 +313,10 @@ def dataclass_case(_=None):
 
 
 def replay(case):
+  if case.get('inline'):
+    r = inline_case()
+    m = [v for v in r[2] if v['config'] == case.get('config')]
+    return m[0]['what'] if m else None
   if case.get('dc'):
     r = dataclass_case()
   else:
@@ -252,6 +328,7 @@ def run(tier='quick', seed=0, nproc=16):
   jobs = [(n, t) for n in extra_pool() for t in TRANSFORMS]
   res = common.pmap(check_case, gen.shuffled(jobs), nproc)
   res.append(common.guard(dataclass_case))
+  res.append(common.guard(inline_case))
   return common.merge(
       res, 'layerb.prop_C20',
       rule='every transformation (materialize_defaults, with_defaults_trimmed, '
